@@ -17,5 +17,7 @@ verus! {
 
 /*@include units/lib0_common/varint.rs @*/
 
+/*@include units/lib0_common/examples.rs @*/
+
 } // verus!
 fn main() {}
